@@ -251,7 +251,8 @@ Lemma st_update_shape b name rowid cols vals b1 ws :
   exists pg bs, leaf_has (forest b) pg rowid /\ (MV <? length bs)%nat = false /\
     b1 = touched b pg rowid (upd_fun bs) /\ ws = [mkWal OpUpdate (nextLSN b) pg rowid bs].
 Proof.
-  intros G. unfold st_update. destruct (is_sys_table name); [discriminate|].
+  intros G. unfold st_update. destruct (upd_bad_cols _ _ _); [discriminate|]. unfold st_update0.
+  destruct (is_sys_table name); [discriminate|].
   destruct (rel_offset b name) as [off|e|]; cbn [bind]; try discriminate.
   destruct (get_tree b off) as [t|e|] eqn:Eg; cbn [bind]; try discriminate.
   destruct (rel_schema b name) as [sch|e|]; cbn [bind]; try discriminate.
